@@ -75,6 +75,33 @@ def dupify(rng, T):
   return T
 
 
+EXOTIC = ['(1)', '[2]', '+b', '_x', '-y', '(a)[b]']
+
+
+def exotify(rng, T):
+  """Leaf ids with every character Device allows (parentheses, brackets, plus: regular-expression metacharacters), and a leaf
+  whose id is another leaf's dotted path with '-' in place of the dot (so that a pattern in which '.' is a wildcard confuses them)."""
+  for x in tg.nodes(T):
+    if x['kind'] == 'leaf' and rng.random() < 0.3:
+      nid = x['id'] + rng.choice(EXOTIC)
+      x['id'] = nid
+      x['leaf']['id'] = nid
+  sets = [x for x in tg.nodes(T) if 'kids' in x]
+  cands = [(P, k) for P in sets for k, S in enumerate(P['kids']) if 'kids' in S and any(c['kind'] == 'leaf' for c in S['kids'])]
+  if cands and rng.random() < 0.5:
+    P, k = rng.choice(cands)
+    S = P['kids'][k]
+    leafkid = rng.choice([c for c in S['kids'] if c['kind'] == 'leaf'])
+    import copy
+    twin = copy.deepcopy(leafkid)
+    nid = S['id'] + '-' + leafkid['id']
+    if all(c['id'] != nid for c in P['kids']):
+      twin['id'] = nid
+      twin['leaf']['id'] = nid
+      P['kids'].insert(k, twin)
+  return T
+
+
 def queries(rng, T):
   labs = [q for q, _ in tg.leaf_list(T)]
   names = set(labs[:6])
@@ -103,6 +130,8 @@ def gen_cases(rng, tier):
                     p_adaptor=0.4)
     if rng.random() < 0.15:
       T = dupify(rng, T)
+    elif rng.random() < 0.5:
+      T = exotify(rng, T)
     names, pres = queries(rng, T)
     out.append({'tree': T, 'names': names, 'pres': pres})
   return out
